@@ -265,6 +265,11 @@ Proof.
   eapply Permutation_in; [apply Permutation_sym; exact E | exact H2].
 Qed.
 
+(* sub-context seeds depend on the parent seed bytes (and on the sub-quorum) *)
+Lemma sub_seed_depends : forall p1 q1 p2 q2,
+  sub_seed_term p1 q1 = sub_seed_term p2 q2 -> p1 = p2 /\ q1 = q2.
+Proof. intros p1 q1 p2 q2 H. unfold sub_seed_term in H. inversion H. auto. Qed.
+
 (* zero shares *)
 Local Open Scope Z_scope.
 
